@@ -110,6 +110,15 @@ def step (c : Consts Float) (ts : List String) : Consts Float × String :=
       match zEffective sp with
       | some z => (c, "ok " ++ fFs [z, ionDensity sp])
       | none => (c, "valueerror " ++ fF (ionDensity sp))
+  | "comp" :: op :: nb :: rest =>
+      let nb := pN nb
+      let before := (List.range nb).zip (rest.take nb) |>.map fun (i, k) => (pN k, i)
+      let items := (rest.drop (nb + 1)).zipIdx.map fun (t, j) =>
+        if t == "-1" then some Item.other else if t == "-2" then none else some (Item.species (pN t) (100 + j))
+      let r := if op == "set" then compositionSet before (items.map fun o => o.getD Item.other)
+               else compositionAdd before (items.head?.getD none)
+      (c, (if r.raised then "raised" else "ok") ++ " " ++ fB r.notified ++ " " ++
+          " ".intercalate (r.dict.map fun e => toString e.1 ++ ":" ++ toString e.2))
   | _ => (c, "bad-op")
 
 def main : IO UInt32 := do
